@@ -188,6 +188,66 @@ def run_confinement(case, monitor):
     return EC.run_case(case, monitor, hooks=hooks)
 
 
+def restarts(rng):
+    """C06 family: a clean one-sided or disjoint history with the engine stopped at random step boundaries and a new
+    engine started over the same storage file and accounts; operations while stopped; three modes."""
+    two = rng.random() < 0.4
+    if two:
+        case = None
+        fl = rng.choice([f for f in CLEAN_FLAVOURS if not f.oip[0] and not f.oip[1]])
+        g = EC.Gen(rng, fl, [0, 1], 0, owner={})
+        for i in range(rng.randint(2, 3)):
+            rel = "/" + g.fresh("D")
+            g.tree[rel] = "D"
+            g.base.append(["mkdir", g.abs(0, rel)])
+            g.owner[rel] = i % 2
+            for _ in range(rng.randint(0, 2)):
+                sub = rel + "/" + g.fresh("F")
+                g.tree[sub] = "F"
+                g.base.append(["create", g.abs(0, sub), g.content()])
+        sides = [0, 1]
+        origin = None
+    else:
+        side = rng.choice([0, 1])
+        fl = rng.choice([f for f in CLEAN_FLAVOURS if not f.oip[side]])
+        g = EC.Gen(rng, fl, [side], 0)
+        g.make_base(rng.randint(0, 5))
+        sides = [side]
+        origin = side
+    g.allow_empty = False
+    n_restarts = 0
+    for _ in range(rng.randint(2, 10)):
+        g.one_op(rng.choice(sides))
+        g.engine_noise()
+        r = rng.random()
+        if r < 0.3:
+            mode = rng.choice(["intact", "intact", "cursor_removed", "cursor_rejected"])
+            if mode != "intact":
+                g.drain()          # fallback modes only promise creations/modifications (property text)
+            g.sched.append(["stop"])
+            for _ in range(rng.randint(0, 3)):
+                g.offline_op(rng.choice(sides), creations_only=(mode != "intact"))
+            g.sched.append(["start", mode])
+            n_restarts += 1
+            if mode != "intact":
+                # the outage lasts until the engine has noticed the bad cursor (first intake of each side) and
+                # finished the fallback walk: deletions made before that may be missed (property text)
+                g.sched += [["intake", 0], ["intake", 1], ["sync"]]
+                g.drain()
+            g.engine_noise()
+        elif r < 0.4:
+            g.drain()
+    if n_restarts == 0:
+        g.sched.append(["stop"])
+        g.sched.append(["start", "intact"])
+    return dict(flavour=fl.key(), base=g.base, schedule=g.sched, hash_mult=rng.choice([1, 3, 7, 11, 2654435761]),
+                mode=dict(origin=origin, check_spec=True, no_conflicted=True, cov_every_step=True))
+
+
+def run_restarts(case, monitor):
+    return EC.run_case(case, monitor, storage_factory="sqlite-file", oracles=("cursor", "index", "storage"))
+
+
 # ------------------------------------------------------------------ Stream B (deterministic; see streamb_gen.py)
 from . import streamb_gen as SB
 
